@@ -8,6 +8,7 @@ import (
 	jsoniter "github.com/json-iterator/go"
 
 	"github.com/ccbrown/api-fu/graphql"
+	"github.com/ccbrown/api-fu/graphql/schema"
 	"github.com/ccbrown/api-fu/graphql/schema/introspection"
 )
 
@@ -93,6 +94,28 @@ func (w *world) value(t TypeRef, vs, ps uint64, nn bool) interface{} {
 }
 
 // buildSchema builds the real schema (resolvers read the world from the object they are called on).
+// descPool: descriptions must never change the validity of the generated source.
+var descPool = []string{
+	"The colours.\n\nMixed colours are not offered.",
+	"ends a comment */ and // starts one",
+	"a `backtick`, a \"quote\" and a \\ backslash",
+	"ünï→😀 non-ASCII\nsecond line",
+	"\nleading newline",
+	"tab\tand trailing newline\n",
+	"}\nfunc init() { panic(1) }\n",
+	"plain words",
+}
+
+func (spec *SchemaSpec) desc(what string) string {
+	switch spec.DescMode {
+	case 1:
+		return "About " + what + "."
+	case 2:
+		return descPool[mix(7, what, 0)%uint64(len(descPool))]
+	}
+	return ""
+}
+
 func buildSchema(spec *SchemaSpec) (*graphql.Schema, error) {
 	enums := map[string]*graphql.EnumType{}
 	objects := map[string]*graphql.ObjectType{}
@@ -102,19 +125,19 @@ func buildSchema(spec *SchemaSpec) (*graphql.Schema, error) {
 		t := &spec.Types[i]
 		switch t.Kind {
 		case "enum":
-			e := &graphql.EnumType{Name: t.Name, Values: map[string]*graphql.EnumValueDefinition{}}
+			e := &graphql.EnumType{Name: t.Name, Description: spec.desc(t.Name), Values: map[string]*graphql.EnumValueDefinition{}}
 			for _, v := range t.Values {
-				e.Values[v] = &graphql.EnumValueDefinition{Value: v}
+				e.Values[v] = &graphql.EnumValueDefinition{Value: v, Description: spec.desc(t.Name + "." + v)}
 			}
 			enums[t.Name] = e
 		case "object":
 			name := t.Name
-			objects[t.Name] = &graphql.ObjectType{Name: t.Name, Fields: map[string]*graphql.FieldDefinition{},
+			objects[t.Name] = &graphql.ObjectType{Name: t.Name, Description: spec.desc(t.Name), Fields: map[string]*graphql.FieldDefinition{},
 				IsTypeOf: func(v interface{}) bool { o, ok := v.(*obj); return ok && o.typ == name }}
 		case "iface":
-			ifaces[t.Name] = &graphql.InterfaceType{Name: t.Name, Fields: map[string]*graphql.FieldDefinition{}}
+			ifaces[t.Name] = &graphql.InterfaceType{Name: t.Name, Description: spec.desc(t.Name), Fields: map[string]*graphql.FieldDefinition{}}
 		case "union":
-			unions[t.Name] = &graphql.UnionType{Name: t.Name}
+			unions[t.Name] = &graphql.UnionType{Name: t.Name, Description: spec.desc(t.Name)}
 		default:
 			return nil, fmt.Errorf("unknown type kind %q", t.Kind)
 		}
@@ -166,9 +189,9 @@ func buildSchema(spec *SchemaSpec) (*graphql.Schema, error) {
 		if err != nil {
 			return nil, err
 		}
-		def := &graphql.FieldDefinition{Type: ty}
+		def := &graphql.FieldDefinition{Type: ty, Description: spec.desc("field " + f.Name)}
 		if f.HasArg {
-			def.Arguments = map[string]*graphql.InputValueDefinition{"n": {Type: graphql.IntType}}
+			def.Arguments = map[string]*graphql.InputValueDefinition{"n": {Type: graphql.IntType, Description: spec.desc("arg n of " + f.Name)}}
 		}
 		if resolve {
 			f := f
@@ -227,7 +250,7 @@ func buildSchema(spec *SchemaSpec) (*graphql.Schema, error) {
 	def := &graphql.SchemaDefinition{
 		Query:           objects[spec.Query],
 		AdditionalTypes: additional,
-		Directives:      map[string]*graphql.DirectiveDefinition{"include": graphql.IncludeDirective, "skip": graphql.SkipDirective},
+		Directives:      declaredDirectives(spec),
 	}
 	if spec.Mutation != "" {
 		def.Mutation = objects[spec.Mutation]
@@ -289,4 +312,26 @@ func validate(s *graphql.Schema, docText string) (ok bool, msgs []string) {
 		msgs = append(msgs, e.Message)
 	}
 	return len(errs) == 0, msgs
+}
+
+// declaredDirectives: in this library @skip/@include are opt-in (SchemaDefinition.Directives).
+func declaredDirectives(spec *SchemaSpec) map[string]*graphql.DirectiveDefinition {
+	out := map[string]*graphql.DirectiveDefinition{}
+	switch spec.Dirs {
+	case "none":
+	case "skip":
+		out["skip"] = graphql.SkipDirective
+	case "include":
+		out["include"] = graphql.IncludeDirective
+	default:
+		out["skip"] = graphql.SkipDirective
+		out["include"] = graphql.IncludeDirective
+	}
+	if spec.Dirs == "custom" {
+		out["tag"] = &graphql.DirectiveDefinition{
+			Description: spec.desc("directive tag"),
+			Locations:   []schema.DirectiveLocation{schema.DirectiveLocationField, schema.DirectiveLocationInlineFragment, schema.DirectiveLocationFragmentSpread},
+		}
+	}
+	return out
 }
